@@ -70,47 +70,6 @@ vpv_cell!(#[kani::stub(eval_filter_expr, stub_eval_filter_expr)] #[kani::stub(co
 vpv_cell!(#[kani::stub(eval_filter_expr, stub_eval_filter_expr)] #[kani::stub(collect_emitted_event, stub_collect_emitted_event)] #[kani::stub(call_user_function, stub_call_user_function)] c11_bin_pow_if, "C11/eval_expr_with_functions/Binary/Pow/Int-Float/no-panic", (a0: i64, a1: f64), { run_expr(Expr::Binary { op: BinOp::Pow, left: Box::new(Expr::Int(a0)), right: Box::new(Expr::Float(a1)) }) });
 vpv_cell!(#[kani::stub(eval_filter_expr, stub_eval_filter_expr)] #[kani::stub(collect_emitted_event, stub_collect_emitted_event)] #[kani::stub(call_user_function, stub_call_user_function)] c11_bin_pow_fi, "C11/eval_expr_with_functions/Binary/Pow/Float-Int/no-panic", (a0: f64, a1: i64), { run_expr(Expr::Binary { op: BinOp::Pow, left: Box::new(Expr::Float(a0)), right: Box::new(Expr::Int(a1)) }) });
 vpv_cell!(#[kani::stub(eval_filter_expr, stub_eval_filter_expr)] #[kani::stub(collect_emitted_event, stub_collect_emitted_event)] #[kani::stub(call_user_function, stub_call_user_function)] c11_bin_pow_ff, "C11/eval_expr_with_functions/Binary/Pow/Float-Float/no-panic", (a0: f64, a1: f64), { run_expr(Expr::Binary { op: BinOp::Pow, left: Box::new(Expr::Float(a0)), right: Box::new(Expr::Float(a1)) }) });
-vpv_cell!(#[kani::stub(eval_filter_expr, stub_eval_filter_expr)] #[kani::stub(collect_emitted_event, stub_collect_emitted_event)] #[kani::stub(call_user_function, stub_call_user_function)] c11_bin_eq_ii, "C11/eval_expr_with_functions/Binary/Eq/Int-Int/no-panic", (a0: i64, a1: i64), { run_expr(Expr::Binary { op: BinOp::Eq, left: Box::new(Expr::Int(a0)), right: Box::new(Expr::Int(a1)) }) });
-vpv_cell!(#[kani::stub(eval_filter_expr, stub_eval_filter_expr)] #[kani::stub(collect_emitted_event, stub_collect_emitted_event)] #[kani::stub(call_user_function, stub_call_user_function)] c11_bin_eq_ff, "C11/eval_expr_with_functions/Binary/Eq/Float-Float/no-panic", (a0: f64, a1: f64), { run_expr(Expr::Binary { op: BinOp::Eq, left: Box::new(Expr::Float(a0)), right: Box::new(Expr::Float(a1)) }) });
-vpv_cell!(#[kani::stub(eval_filter_expr, stub_eval_filter_expr)] #[kani::stub(collect_emitted_event, stub_collect_emitted_event)] #[kani::stub(call_user_function, stub_call_user_function)] c11_bin_eq_bb, "C11/eval_expr_with_functions/Binary/Eq/Bool-Bool/no-panic", (a0: bool, a1: bool), { run_expr(Expr::Binary { op: BinOp::Eq, left: Box::new(Expr::Bool(a0)), right: Box::new(Expr::Bool(a1)) }) });
-vpv_cell!(#[kani::stub(eval_filter_expr, stub_eval_filter_expr)] #[kani::stub(collect_emitted_event, stub_collect_emitted_event)] #[kani::stub(call_user_function, stub_call_user_function)] c11_bin_noteq_ii, "C11/eval_expr_with_functions/Binary/NotEq/Int-Int/no-panic", (a0: i64, a1: i64), { run_expr(Expr::Binary { op: BinOp::NotEq, left: Box::new(Expr::Int(a0)), right: Box::new(Expr::Int(a1)) }) });
-vpv_cell!(#[kani::stub(eval_filter_expr, stub_eval_filter_expr)] #[kani::stub(collect_emitted_event, stub_collect_emitted_event)] #[kani::stub(call_user_function, stub_call_user_function)] c11_bin_noteq_ff, "C11/eval_expr_with_functions/Binary/NotEq/Float-Float/no-panic", (a0: f64, a1: f64), { run_expr(Expr::Binary { op: BinOp::NotEq, left: Box::new(Expr::Float(a0)), right: Box::new(Expr::Float(a1)) }) });
-vpv_cell!(#[kani::stub(eval_filter_expr, stub_eval_filter_expr)] #[kani::stub(collect_emitted_event, stub_collect_emitted_event)] #[kani::stub(call_user_function, stub_call_user_function)] c11_bin_noteq_bb, "C11/eval_expr_with_functions/Binary/NotEq/Bool-Bool/no-panic", (a0: bool, a1: bool), { run_expr(Expr::Binary { op: BinOp::NotEq, left: Box::new(Expr::Bool(a0)), right: Box::new(Expr::Bool(a1)) }) });
-vpv_cell!(#[kani::stub(eval_filter_expr, stub_eval_filter_expr)] #[kani::stub(collect_emitted_event, stub_collect_emitted_event)] #[kani::stub(call_user_function, stub_call_user_function)] c11_bin_lt_ii, "C11/eval_expr_with_functions/Binary/Lt/Int-Int/no-panic", (a0: i64, a1: i64), { run_expr(Expr::Binary { op: BinOp::Lt, left: Box::new(Expr::Int(a0)), right: Box::new(Expr::Int(a1)) }) });
-vpv_cell!(#[kani::stub(eval_filter_expr, stub_eval_filter_expr)] #[kani::stub(collect_emitted_event, stub_collect_emitted_event)] #[kani::stub(call_user_function, stub_call_user_function)] c11_bin_lt_ff, "C11/eval_expr_with_functions/Binary/Lt/Float-Float/no-panic", (a0: f64, a1: f64), { run_expr(Expr::Binary { op: BinOp::Lt, left: Box::new(Expr::Float(a0)), right: Box::new(Expr::Float(a1)) }) });
-vpv_cell!(#[kani::stub(eval_filter_expr, stub_eval_filter_expr)] #[kani::stub(collect_emitted_event, stub_collect_emitted_event)] #[kani::stub(call_user_function, stub_call_user_function)] c11_bin_le_ii, "C11/eval_expr_with_functions/Binary/Le/Int-Int/no-panic", (a0: i64, a1: i64), { run_expr(Expr::Binary { op: BinOp::Le, left: Box::new(Expr::Int(a0)), right: Box::new(Expr::Int(a1)) }) });
-vpv_cell!(#[kani::stub(eval_filter_expr, stub_eval_filter_expr)] #[kani::stub(collect_emitted_event, stub_collect_emitted_event)] #[kani::stub(call_user_function, stub_call_user_function)] c11_bin_le_ff, "C11/eval_expr_with_functions/Binary/Le/Float-Float/no-panic", (a0: f64, a1: f64), { run_expr(Expr::Binary { op: BinOp::Le, left: Box::new(Expr::Float(a0)), right: Box::new(Expr::Float(a1)) }) });
-vpv_cell!(#[kani::stub(eval_filter_expr, stub_eval_filter_expr)] #[kani::stub(collect_emitted_event, stub_collect_emitted_event)] #[kani::stub(call_user_function, stub_call_user_function)] c11_bin_gt_ii, "C11/eval_expr_with_functions/Binary/Gt/Int-Int/no-panic", (a0: i64, a1: i64), { run_expr(Expr::Binary { op: BinOp::Gt, left: Box::new(Expr::Int(a0)), right: Box::new(Expr::Int(a1)) }) });
-vpv_cell!(#[kani::stub(eval_filter_expr, stub_eval_filter_expr)] #[kani::stub(collect_emitted_event, stub_collect_emitted_event)] #[kani::stub(call_user_function, stub_call_user_function)] c11_bin_gt_ff, "C11/eval_expr_with_functions/Binary/Gt/Float-Float/no-panic", (a0: f64, a1: f64), { run_expr(Expr::Binary { op: BinOp::Gt, left: Box::new(Expr::Float(a0)), right: Box::new(Expr::Float(a1)) }) });
-vpv_cell!(#[kani::stub(eval_filter_expr, stub_eval_filter_expr)] #[kani::stub(collect_emitted_event, stub_collect_emitted_event)] #[kani::stub(call_user_function, stub_call_user_function)] c11_bin_ge_ii, "C11/eval_expr_with_functions/Binary/Ge/Int-Int/no-panic", (a0: i64, a1: i64), { run_expr(Expr::Binary { op: BinOp::Ge, left: Box::new(Expr::Int(a0)), right: Box::new(Expr::Int(a1)) }) });
-vpv_cell!(#[kani::stub(eval_filter_expr, stub_eval_filter_expr)] #[kani::stub(collect_emitted_event, stub_collect_emitted_event)] #[kani::stub(call_user_function, stub_call_user_function)] c11_bin_ge_ff, "C11/eval_expr_with_functions/Binary/Ge/Float-Float/no-panic", (a0: f64, a1: f64), { run_expr(Expr::Binary { op: BinOp::Ge, left: Box::new(Expr::Float(a0)), right: Box::new(Expr::Float(a1)) }) });
-vpv_cell!(#[kani::stub(eval_filter_expr, stub_eval_filter_expr)] #[kani::stub(collect_emitted_event, stub_collect_emitted_event)] #[kani::stub(call_user_function, stub_call_user_function)] c11_bin_in_ii, "C11/eval_expr_with_functions/Binary/In/Int-Int/no-panic", (a0: i64, a1: i64), { run_expr(Expr::Binary { op: BinOp::In, left: Box::new(Expr::Int(a0)), right: Box::new(Expr::Int(a1)) }) });
-vpv_cell!(#[kani::stub(eval_filter_expr, stub_eval_filter_expr)] #[kani::stub(collect_emitted_event, stub_collect_emitted_event)] #[kani::stub(call_user_function, stub_call_user_function)] c11_bin_in_ff, "C11/eval_expr_with_functions/Binary/In/Float-Float/no-panic", (a0: f64, a1: f64), { run_expr(Expr::Binary { op: BinOp::In, left: Box::new(Expr::Float(a0)), right: Box::new(Expr::Float(a1)) }) });
-vpv_cell!(#[kani::stub(eval_filter_expr, stub_eval_filter_expr)] #[kani::stub(collect_emitted_event, stub_collect_emitted_event)] #[kani::stub(call_user_function, stub_call_user_function)] c11_bin_notin_ii, "C11/eval_expr_with_functions/Binary/NotIn/Int-Int/no-panic", (a0: i64, a1: i64), { run_expr(Expr::Binary { op: BinOp::NotIn, left: Box::new(Expr::Int(a0)), right: Box::new(Expr::Int(a1)) }) });
-vpv_cell!(#[kani::stub(eval_filter_expr, stub_eval_filter_expr)] #[kani::stub(collect_emitted_event, stub_collect_emitted_event)] #[kani::stub(call_user_function, stub_call_user_function)] c11_bin_notin_ff, "C11/eval_expr_with_functions/Binary/NotIn/Float-Float/no-panic", (a0: f64, a1: f64), { run_expr(Expr::Binary { op: BinOp::NotIn, left: Box::new(Expr::Float(a0)), right: Box::new(Expr::Float(a1)) }) });
-vpv_cell!(#[kani::stub(eval_filter_expr, stub_eval_filter_expr)] #[kani::stub(collect_emitted_event, stub_collect_emitted_event)] #[kani::stub(call_user_function, stub_call_user_function)] c11_bin_is_ii, "C11/eval_expr_with_functions/Binary/Is/Int-Int/no-panic", (a0: i64, a1: i64), { run_expr(Expr::Binary { op: BinOp::Is, left: Box::new(Expr::Int(a0)), right: Box::new(Expr::Int(a1)) }) });
-vpv_cell!(#[kani::stub(eval_filter_expr, stub_eval_filter_expr)] #[kani::stub(collect_emitted_event, stub_collect_emitted_event)] #[kani::stub(call_user_function, stub_call_user_function)] c11_bin_is_ff, "C11/eval_expr_with_functions/Binary/Is/Float-Float/no-panic", (a0: f64, a1: f64), { run_expr(Expr::Binary { op: BinOp::Is, left: Box::new(Expr::Float(a0)), right: Box::new(Expr::Float(a1)) }) });
-vpv_cell!(#[kani::stub(eval_filter_expr, stub_eval_filter_expr)] #[kani::stub(collect_emitted_event, stub_collect_emitted_event)] #[kani::stub(call_user_function, stub_call_user_function)] c11_bin_and_ii, "C11/eval_expr_with_functions/Binary/And/Int-Int/no-panic", (a0: i64, a1: i64), { run_expr(Expr::Binary { op: BinOp::And, left: Box::new(Expr::Int(a0)), right: Box::new(Expr::Int(a1)) }) });
-vpv_cell!(#[kani::stub(eval_filter_expr, stub_eval_filter_expr)] #[kani::stub(collect_emitted_event, stub_collect_emitted_event)] #[kani::stub(call_user_function, stub_call_user_function)] c11_bin_and_ff, "C11/eval_expr_with_functions/Binary/And/Float-Float/no-panic", (a0: f64, a1: f64), { run_expr(Expr::Binary { op: BinOp::And, left: Box::new(Expr::Float(a0)), right: Box::new(Expr::Float(a1)) }) });
-vpv_cell!(#[kani::stub(eval_filter_expr, stub_eval_filter_expr)] #[kani::stub(collect_emitted_event, stub_collect_emitted_event)] #[kani::stub(call_user_function, stub_call_user_function)] c11_bin_and_bb, "C11/eval_expr_with_functions/Binary/And/Bool-Bool/no-panic", (a0: bool, a1: bool), { run_expr(Expr::Binary { op: BinOp::And, left: Box::new(Expr::Bool(a0)), right: Box::new(Expr::Bool(a1)) }) });
-vpv_cell!(#[kani::stub(eval_filter_expr, stub_eval_filter_expr)] #[kani::stub(collect_emitted_event, stub_collect_emitted_event)] #[kani::stub(call_user_function, stub_call_user_function)] c11_bin_or_ii, "C11/eval_expr_with_functions/Binary/Or/Int-Int/no-panic", (a0: i64, a1: i64), { run_expr(Expr::Binary { op: BinOp::Or, left: Box::new(Expr::Int(a0)), right: Box::new(Expr::Int(a1)) }) });
-vpv_cell!(#[kani::stub(eval_filter_expr, stub_eval_filter_expr)] #[kani::stub(collect_emitted_event, stub_collect_emitted_event)] #[kani::stub(call_user_function, stub_call_user_function)] c11_bin_or_ff, "C11/eval_expr_with_functions/Binary/Or/Float-Float/no-panic", (a0: f64, a1: f64), { run_expr(Expr::Binary { op: BinOp::Or, left: Box::new(Expr::Float(a0)), right: Box::new(Expr::Float(a1)) }) });
-vpv_cell!(#[kani::stub(eval_filter_expr, stub_eval_filter_expr)] #[kani::stub(collect_emitted_event, stub_collect_emitted_event)] #[kani::stub(call_user_function, stub_call_user_function)] c11_bin_or_bb, "C11/eval_expr_with_functions/Binary/Or/Bool-Bool/no-panic", (a0: bool, a1: bool), { run_expr(Expr::Binary { op: BinOp::Or, left: Box::new(Expr::Bool(a0)), right: Box::new(Expr::Bool(a1)) }) });
-vpv_cell!(#[kani::stub(eval_filter_expr, stub_eval_filter_expr)] #[kani::stub(collect_emitted_event, stub_collect_emitted_event)] #[kani::stub(call_user_function, stub_call_user_function)] c11_bin_xor_ii, "C11/eval_expr_with_functions/Binary/Xor/Int-Int/no-panic", (a0: i64, a1: i64), { run_expr(Expr::Binary { op: BinOp::Xor, left: Box::new(Expr::Int(a0)), right: Box::new(Expr::Int(a1)) }) });
-vpv_cell!(#[kani::stub(eval_filter_expr, stub_eval_filter_expr)] #[kani::stub(collect_emitted_event, stub_collect_emitted_event)] #[kani::stub(call_user_function, stub_call_user_function)] c11_bin_xor_ff, "C11/eval_expr_with_functions/Binary/Xor/Float-Float/no-panic", (a0: f64, a1: f64), { run_expr(Expr::Binary { op: BinOp::Xor, left: Box::new(Expr::Float(a0)), right: Box::new(Expr::Float(a1)) }) });
-vpv_cell!(#[kani::stub(eval_filter_expr, stub_eval_filter_expr)] #[kani::stub(collect_emitted_event, stub_collect_emitted_event)] #[kani::stub(call_user_function, stub_call_user_function)] c11_bin_xor_bb, "C11/eval_expr_with_functions/Binary/Xor/Bool-Bool/no-panic", (a0: bool, a1: bool), { run_expr(Expr::Binary { op: BinOp::Xor, left: Box::new(Expr::Bool(a0)), right: Box::new(Expr::Bool(a1)) }) });
-vpv_cell!(#[kani::stub(eval_filter_expr, stub_eval_filter_expr)] #[kani::stub(collect_emitted_event, stub_collect_emitted_event)] #[kani::stub(call_user_function, stub_call_user_function)] c11_bin_followedby_ii, "C11/eval_expr_with_functions/Binary/FollowedBy/Int-Int/no-panic", (a0: i64, a1: i64), { run_expr(Expr::Binary { op: BinOp::FollowedBy, left: Box::new(Expr::Int(a0)), right: Box::new(Expr::Int(a1)) }) });
-vpv_cell!(#[kani::stub(eval_filter_expr, stub_eval_filter_expr)] #[kani::stub(collect_emitted_event, stub_collect_emitted_event)] #[kani::stub(call_user_function, stub_call_user_function)] c11_bin_followedby_ff, "C11/eval_expr_with_functions/Binary/FollowedBy/Float-Float/no-panic", (a0: f64, a1: f64), { run_expr(Expr::Binary { op: BinOp::FollowedBy, left: Box::new(Expr::Float(a0)), right: Box::new(Expr::Float(a1)) }) });
-vpv_cell!(#[kani::stub(eval_filter_expr, stub_eval_filter_expr)] #[kani::stub(collect_emitted_event, stub_collect_emitted_event)] #[kani::stub(call_user_function, stub_call_user_function)] c11_bin_bitand_ii, "C11/eval_expr_with_functions/Binary/BitAnd/Int-Int/no-panic", (a0: i64, a1: i64), { run_expr(Expr::Binary { op: BinOp::BitAnd, left: Box::new(Expr::Int(a0)), right: Box::new(Expr::Int(a1)) }) });
-vpv_cell!(#[kani::stub(eval_filter_expr, stub_eval_filter_expr)] #[kani::stub(collect_emitted_event, stub_collect_emitted_event)] #[kani::stub(call_user_function, stub_call_user_function)] c11_bin_bitand_ff, "C11/eval_expr_with_functions/Binary/BitAnd/Float-Float/no-panic", (a0: f64, a1: f64), { run_expr(Expr::Binary { op: BinOp::BitAnd, left: Box::new(Expr::Float(a0)), right: Box::new(Expr::Float(a1)) }) });
-vpv_cell!(#[kani::stub(eval_filter_expr, stub_eval_filter_expr)] #[kani::stub(collect_emitted_event, stub_collect_emitted_event)] #[kani::stub(call_user_function, stub_call_user_function)] c11_bin_bitor_ii, "C11/eval_expr_with_functions/Binary/BitOr/Int-Int/no-panic", (a0: i64, a1: i64), { run_expr(Expr::Binary { op: BinOp::BitOr, left: Box::new(Expr::Int(a0)), right: Box::new(Expr::Int(a1)) }) });
-vpv_cell!(#[kani::stub(eval_filter_expr, stub_eval_filter_expr)] #[kani::stub(collect_emitted_event, stub_collect_emitted_event)] #[kani::stub(call_user_function, stub_call_user_function)] c11_bin_bitor_ff, "C11/eval_expr_with_functions/Binary/BitOr/Float-Float/no-panic", (a0: f64, a1: f64), { run_expr(Expr::Binary { op: BinOp::BitOr, left: Box::new(Expr::Float(a0)), right: Box::new(Expr::Float(a1)) }) });
-vpv_cell!(#[kani::stub(eval_filter_expr, stub_eval_filter_expr)] #[kani::stub(collect_emitted_event, stub_collect_emitted_event)] #[kani::stub(call_user_function, stub_call_user_function)] c11_bin_bitxor_ii, "C11/eval_expr_with_functions/Binary/BitXor/Int-Int/no-panic", (a0: i64, a1: i64), { run_expr(Expr::Binary { op: BinOp::BitXor, left: Box::new(Expr::Int(a0)), right: Box::new(Expr::Int(a1)) }) });
-vpv_cell!(#[kani::stub(eval_filter_expr, stub_eval_filter_expr)] #[kani::stub(collect_emitted_event, stub_collect_emitted_event)] #[kani::stub(call_user_function, stub_call_user_function)] c11_bin_bitxor_ff, "C11/eval_expr_with_functions/Binary/BitXor/Float-Float/no-panic", (a0: f64, a1: f64), { run_expr(Expr::Binary { op: BinOp::BitXor, left: Box::new(Expr::Float(a0)), right: Box::new(Expr::Float(a1)) }) });
-vpv_cell!(#[kani::stub(eval_filter_expr, stub_eval_filter_expr)] #[kani::stub(collect_emitted_event, stub_collect_emitted_event)] #[kani::stub(call_user_function, stub_call_user_function)] c11_bin_shl_ii, "C11/eval_expr_with_functions/Binary/Shl/Int-Int/no-panic", (a0: i64, a1: i64), { run_expr(Expr::Binary { op: BinOp::Shl, left: Box::new(Expr::Int(a0)), right: Box::new(Expr::Int(a1)) }) });
-vpv_cell!(#[kani::stub(eval_filter_expr, stub_eval_filter_expr)] #[kani::stub(collect_emitted_event, stub_collect_emitted_event)] #[kani::stub(call_user_function, stub_call_user_function)] c11_bin_shl_ff, "C11/eval_expr_with_functions/Binary/Shl/Float-Float/no-panic", (a0: f64, a1: f64), { run_expr(Expr::Binary { op: BinOp::Shl, left: Box::new(Expr::Float(a0)), right: Box::new(Expr::Float(a1)) }) });
-vpv_cell!(#[kani::stub(eval_filter_expr, stub_eval_filter_expr)] #[kani::stub(collect_emitted_event, stub_collect_emitted_event)] #[kani::stub(call_user_function, stub_call_user_function)] c11_bin_shr_ii, "C11/eval_expr_with_functions/Binary/Shr/Int-Int/no-panic", (a0: i64, a1: i64), { run_expr(Expr::Binary { op: BinOp::Shr, left: Box::new(Expr::Int(a0)), right: Box::new(Expr::Int(a1)) }) });
-vpv_cell!(#[kani::stub(eval_filter_expr, stub_eval_filter_expr)] #[kani::stub(collect_emitted_event, stub_collect_emitted_event)] #[kani::stub(call_user_function, stub_call_user_function)] c11_bin_shr_ff, "C11/eval_expr_with_functions/Binary/Shr/Float-Float/no-panic", (a0: f64, a1: f64), { run_expr(Expr::Binary { op: BinOp::Shr, left: Box::new(Expr::Float(a0)), right: Box::new(Expr::Float(a1)) }) });
 vpv_cell!(#[kani::stub(eval_filter_expr, stub_eval_filter_expr)] #[kani::stub(collect_emitted_event, stub_collect_emitted_event)] #[kani::stub(call_user_function, stub_call_user_function)] #[kani::unwind(6)] c11_bin_add_ss, "C11/eval_expr_with_functions/Binary/Add/Str-Str/no-panic", (), { run_expr(Expr::Binary { op: BinOp::Add, left: Box::new(Expr::Str(String::from("ab"))), right: Box::new(Expr::Str(String::from("c"))) }) });
 vpv_cell!(#[kani::stub(eval_filter_expr, stub_eval_filter_expr)] #[kani::stub(collect_emitted_event, stub_collect_emitted_event)] #[kani::stub(call_user_function, stub_call_user_function)] c11_un_neg_i, "C11/eval_expr_with_functions/Unary/Neg/Int/no-panic", (a0: i64), { run_expr(Expr::Unary { op: UnaryOp::Neg, expr: Box::new(Expr::Int(a0)) }) });
 vpv_cell!(#[kani::stub(eval_filter_expr, stub_eval_filter_expr)] #[kani::stub(collect_emitted_event, stub_collect_emitted_event)] #[kani::stub(call_user_function, stub_call_user_function)] c11_un_neg_f, "C11/eval_expr_with_functions/Unary/Neg/Float/no-panic", (a0: f64), { run_expr(Expr::Unary { op: UnaryOp::Neg, expr: Box::new(Expr::Float(a0)) }) });
@@ -152,4 +111,94 @@ vpv_cell!(#[kani::unwind(4)] c11_fn_set_array, "C11/eval_builtin_function/set(ar
 vpv_cell!(#[kani::unwind(16)] c11_fn_substring, "C11/eval_builtin_function/substring/no-panic", (s: i64, e: i64), { run_builtin("substring", vec![Value::Str("ab".into()), Value::Int(s), Value::Int(e)]) });
 vpv_cell!(#[kani::unwind(16)] c11_fn_substring_utf8, "C11/eval_builtin_function/substring(non-ASCII, 3 and 2 args)/no-panic", (s: i64, e: i64, three: bool), {
     run_builtin("substring", if three { vec![Value::Str("a\u{e9}".into()), Value::Int(s), Value::Int(e)] } else { vec![Value::Str("a\u{e9}".into()), Value::Int(s)] }) });
-vpv_replay_table!(c11_bin_add_ii, c11_bin_add_if, c11_bin_add_fi, c11_bin_add_ff, c11_bin_sub_ii, c11_bin_sub_if, c11_bin_sub_fi, c11_bin_sub_ff, c11_bin_mul_ii, c11_bin_mul_if, c11_bin_mul_fi, c11_bin_mul_ff, c11_bin_div_ii, c11_bin_div_if, c11_bin_div_fi, c11_bin_div_ff, c11_bin_mod_ii, c11_bin_mod_if, c11_bin_mod_fi, c11_bin_mod_ff, c11_bin_pow_ii, c11_bin_pow_if, c11_bin_pow_fi, c11_bin_pow_ff, c11_bin_eq_ii, c11_bin_eq_ff, c11_bin_eq_bb, c11_bin_noteq_ii, c11_bin_noteq_ff, c11_bin_noteq_bb, c11_bin_lt_ii, c11_bin_lt_ff, c11_bin_le_ii, c11_bin_le_ff, c11_bin_gt_ii, c11_bin_gt_ff, c11_bin_ge_ii, c11_bin_ge_ff, c11_bin_in_ii, c11_bin_in_ff, c11_bin_notin_ii, c11_bin_notin_ff, c11_bin_is_ii, c11_bin_is_ff, c11_bin_and_ii, c11_bin_and_ff, c11_bin_and_bb, c11_bin_or_ii, c11_bin_or_ff, c11_bin_or_bb, c11_bin_xor_ii, c11_bin_xor_ff, c11_bin_xor_bb, c11_bin_followedby_ii, c11_bin_followedby_ff, c11_bin_bitand_ii, c11_bin_bitand_ff, c11_bin_bitor_ii, c11_bin_bitor_ff, c11_bin_bitxor_ii, c11_bin_bitxor_ff, c11_bin_shl_ii, c11_bin_shl_ff, c11_bin_shr_ii, c11_bin_shr_ff, c11_bin_add_ss, c11_un_neg_i, c11_un_neg_f, c11_un_not_b, c11_un_bitnot_i, c11_un_not_i, c11_index_array, c11_index_str, c11_slice_array, c11_slice_array_open, c11_slice_str, c11_if_coalesce, c11_fn_abs, c11_fn_sqrt, c11_fn_floor, c11_fn_ceil, c11_fn_round, c11_fn_log, c11_fn_log10, c11_fn_exp, c11_fn_sin, c11_fn_cos, c11_fn_to_int, c11_fn_to_float, c11_fn_is_null, c11_fn_is_int, c11_fn_type_of, c11_fn_pow, c11_fn_min, c11_fn_max, c11_fn_get_array, c11_fn_set_array, c11_fn_substring, c11_fn_substring_utf8);
+vpv_cell!(#[kani::stub(eval_filter_expr, stub_eval_filter_expr)] #[kani::stub(collect_emitted_event, stub_collect_emitted_event)] #[kani::stub(call_user_function, stub_call_user_function)] c11_bin_eq_scalars, "C11/eval_expr_with_functions/Binary/Eq/Int-Int, Float-Float, Bool-Bool, Int-Float/no-panic", (a: i64, b: i64, x: f64, y: f64, p: bool, q: bool), {
+    run_expr(Expr::Binary { op: BinOp::Eq, left: Box::new(Expr::Int(a)), right: Box::new(Expr::Int(b)) })
+    && run_expr(Expr::Binary { op: BinOp::Eq, left: Box::new(Expr::Float(x)), right: Box::new(Expr::Float(y)) })
+    && run_expr(Expr::Binary { op: BinOp::Eq, left: Box::new(Expr::Bool(p)), right: Box::new(Expr::Bool(q)) })
+    && run_expr(Expr::Binary { op: BinOp::Eq, left: Box::new(Expr::Int(a)), right: Box::new(Expr::Float(y)) }) });
+vpv_cell!(#[kani::stub(eval_filter_expr, stub_eval_filter_expr)] #[kani::stub(collect_emitted_event, stub_collect_emitted_event)] #[kani::stub(call_user_function, stub_call_user_function)] c11_bin_noteq_scalars, "C11/eval_expr_with_functions/Binary/NotEq/Int-Int, Float-Float, Bool-Bool, Int-Float/no-panic", (a: i64, b: i64, x: f64, y: f64, p: bool, q: bool), {
+    run_expr(Expr::Binary { op: BinOp::NotEq, left: Box::new(Expr::Int(a)), right: Box::new(Expr::Int(b)) })
+    && run_expr(Expr::Binary { op: BinOp::NotEq, left: Box::new(Expr::Float(x)), right: Box::new(Expr::Float(y)) })
+    && run_expr(Expr::Binary { op: BinOp::NotEq, left: Box::new(Expr::Bool(p)), right: Box::new(Expr::Bool(q)) })
+    && run_expr(Expr::Binary { op: BinOp::NotEq, left: Box::new(Expr::Int(a)), right: Box::new(Expr::Float(y)) }) });
+vpv_cell!(#[kani::stub(eval_filter_expr, stub_eval_filter_expr)] #[kani::stub(collect_emitted_event, stub_collect_emitted_event)] #[kani::stub(call_user_function, stub_call_user_function)] c11_bin_lt_scalars, "C11/eval_expr_with_functions/Binary/Lt/Int-Int, Float-Float, Bool-Bool, Int-Float/no-panic", (a: i64, b: i64, x: f64, y: f64, p: bool, q: bool), {
+    run_expr(Expr::Binary { op: BinOp::Lt, left: Box::new(Expr::Int(a)), right: Box::new(Expr::Int(b)) })
+    && run_expr(Expr::Binary { op: BinOp::Lt, left: Box::new(Expr::Float(x)), right: Box::new(Expr::Float(y)) })
+    && run_expr(Expr::Binary { op: BinOp::Lt, left: Box::new(Expr::Bool(p)), right: Box::new(Expr::Bool(q)) })
+    && run_expr(Expr::Binary { op: BinOp::Lt, left: Box::new(Expr::Int(a)), right: Box::new(Expr::Float(y)) }) });
+vpv_cell!(#[kani::stub(eval_filter_expr, stub_eval_filter_expr)] #[kani::stub(collect_emitted_event, stub_collect_emitted_event)] #[kani::stub(call_user_function, stub_call_user_function)] c11_bin_le_scalars, "C11/eval_expr_with_functions/Binary/Le/Int-Int, Float-Float, Bool-Bool, Int-Float/no-panic", (a: i64, b: i64, x: f64, y: f64, p: bool, q: bool), {
+    run_expr(Expr::Binary { op: BinOp::Le, left: Box::new(Expr::Int(a)), right: Box::new(Expr::Int(b)) })
+    && run_expr(Expr::Binary { op: BinOp::Le, left: Box::new(Expr::Float(x)), right: Box::new(Expr::Float(y)) })
+    && run_expr(Expr::Binary { op: BinOp::Le, left: Box::new(Expr::Bool(p)), right: Box::new(Expr::Bool(q)) })
+    && run_expr(Expr::Binary { op: BinOp::Le, left: Box::new(Expr::Int(a)), right: Box::new(Expr::Float(y)) }) });
+vpv_cell!(#[kani::stub(eval_filter_expr, stub_eval_filter_expr)] #[kani::stub(collect_emitted_event, stub_collect_emitted_event)] #[kani::stub(call_user_function, stub_call_user_function)] c11_bin_gt_scalars, "C11/eval_expr_with_functions/Binary/Gt/Int-Int, Float-Float, Bool-Bool, Int-Float/no-panic", (a: i64, b: i64, x: f64, y: f64, p: bool, q: bool), {
+    run_expr(Expr::Binary { op: BinOp::Gt, left: Box::new(Expr::Int(a)), right: Box::new(Expr::Int(b)) })
+    && run_expr(Expr::Binary { op: BinOp::Gt, left: Box::new(Expr::Float(x)), right: Box::new(Expr::Float(y)) })
+    && run_expr(Expr::Binary { op: BinOp::Gt, left: Box::new(Expr::Bool(p)), right: Box::new(Expr::Bool(q)) })
+    && run_expr(Expr::Binary { op: BinOp::Gt, left: Box::new(Expr::Int(a)), right: Box::new(Expr::Float(y)) }) });
+vpv_cell!(#[kani::stub(eval_filter_expr, stub_eval_filter_expr)] #[kani::stub(collect_emitted_event, stub_collect_emitted_event)] #[kani::stub(call_user_function, stub_call_user_function)] c11_bin_ge_scalars, "C11/eval_expr_with_functions/Binary/Ge/Int-Int, Float-Float, Bool-Bool, Int-Float/no-panic", (a: i64, b: i64, x: f64, y: f64, p: bool, q: bool), {
+    run_expr(Expr::Binary { op: BinOp::Ge, left: Box::new(Expr::Int(a)), right: Box::new(Expr::Int(b)) })
+    && run_expr(Expr::Binary { op: BinOp::Ge, left: Box::new(Expr::Float(x)), right: Box::new(Expr::Float(y)) })
+    && run_expr(Expr::Binary { op: BinOp::Ge, left: Box::new(Expr::Bool(p)), right: Box::new(Expr::Bool(q)) })
+    && run_expr(Expr::Binary { op: BinOp::Ge, left: Box::new(Expr::Int(a)), right: Box::new(Expr::Float(y)) }) });
+vpv_cell!(#[kani::stub(eval_filter_expr, stub_eval_filter_expr)] #[kani::stub(collect_emitted_event, stub_collect_emitted_event)] #[kani::stub(call_user_function, stub_call_user_function)] c11_bin_in_scalars, "C11/eval_expr_with_functions/Binary/In/Int-Int, Float-Float, Bool-Bool, Int-Float/no-panic", (a: i64, b: i64, x: f64, y: f64, p: bool, q: bool), {
+    run_expr(Expr::Binary { op: BinOp::In, left: Box::new(Expr::Int(a)), right: Box::new(Expr::Int(b)) })
+    && run_expr(Expr::Binary { op: BinOp::In, left: Box::new(Expr::Float(x)), right: Box::new(Expr::Float(y)) })
+    && run_expr(Expr::Binary { op: BinOp::In, left: Box::new(Expr::Bool(p)), right: Box::new(Expr::Bool(q)) })
+    && run_expr(Expr::Binary { op: BinOp::In, left: Box::new(Expr::Int(a)), right: Box::new(Expr::Float(y)) }) });
+vpv_cell!(#[kani::stub(eval_filter_expr, stub_eval_filter_expr)] #[kani::stub(collect_emitted_event, stub_collect_emitted_event)] #[kani::stub(call_user_function, stub_call_user_function)] c11_bin_notin_scalars, "C11/eval_expr_with_functions/Binary/NotIn/Int-Int, Float-Float, Bool-Bool, Int-Float/no-panic", (a: i64, b: i64, x: f64, y: f64, p: bool, q: bool), {
+    run_expr(Expr::Binary { op: BinOp::NotIn, left: Box::new(Expr::Int(a)), right: Box::new(Expr::Int(b)) })
+    && run_expr(Expr::Binary { op: BinOp::NotIn, left: Box::new(Expr::Float(x)), right: Box::new(Expr::Float(y)) })
+    && run_expr(Expr::Binary { op: BinOp::NotIn, left: Box::new(Expr::Bool(p)), right: Box::new(Expr::Bool(q)) })
+    && run_expr(Expr::Binary { op: BinOp::NotIn, left: Box::new(Expr::Int(a)), right: Box::new(Expr::Float(y)) }) });
+vpv_cell!(#[kani::stub(eval_filter_expr, stub_eval_filter_expr)] #[kani::stub(collect_emitted_event, stub_collect_emitted_event)] #[kani::stub(call_user_function, stub_call_user_function)] c11_bin_is_scalars, "C11/eval_expr_with_functions/Binary/Is/Int-Int, Float-Float, Bool-Bool, Int-Float/no-panic", (a: i64, b: i64, x: f64, y: f64, p: bool, q: bool), {
+    run_expr(Expr::Binary { op: BinOp::Is, left: Box::new(Expr::Int(a)), right: Box::new(Expr::Int(b)) })
+    && run_expr(Expr::Binary { op: BinOp::Is, left: Box::new(Expr::Float(x)), right: Box::new(Expr::Float(y)) })
+    && run_expr(Expr::Binary { op: BinOp::Is, left: Box::new(Expr::Bool(p)), right: Box::new(Expr::Bool(q)) })
+    && run_expr(Expr::Binary { op: BinOp::Is, left: Box::new(Expr::Int(a)), right: Box::new(Expr::Float(y)) }) });
+vpv_cell!(#[kani::stub(eval_filter_expr, stub_eval_filter_expr)] #[kani::stub(collect_emitted_event, stub_collect_emitted_event)] #[kani::stub(call_user_function, stub_call_user_function)] c11_bin_and_scalars, "C11/eval_expr_with_functions/Binary/And/Int-Int, Float-Float, Bool-Bool, Int-Float/no-panic", (a: i64, b: i64, x: f64, y: f64, p: bool, q: bool), {
+    run_expr(Expr::Binary { op: BinOp::And, left: Box::new(Expr::Int(a)), right: Box::new(Expr::Int(b)) })
+    && run_expr(Expr::Binary { op: BinOp::And, left: Box::new(Expr::Float(x)), right: Box::new(Expr::Float(y)) })
+    && run_expr(Expr::Binary { op: BinOp::And, left: Box::new(Expr::Bool(p)), right: Box::new(Expr::Bool(q)) })
+    && run_expr(Expr::Binary { op: BinOp::And, left: Box::new(Expr::Int(a)), right: Box::new(Expr::Float(y)) }) });
+vpv_cell!(#[kani::stub(eval_filter_expr, stub_eval_filter_expr)] #[kani::stub(collect_emitted_event, stub_collect_emitted_event)] #[kani::stub(call_user_function, stub_call_user_function)] c11_bin_or_scalars, "C11/eval_expr_with_functions/Binary/Or/Int-Int, Float-Float, Bool-Bool, Int-Float/no-panic", (a: i64, b: i64, x: f64, y: f64, p: bool, q: bool), {
+    run_expr(Expr::Binary { op: BinOp::Or, left: Box::new(Expr::Int(a)), right: Box::new(Expr::Int(b)) })
+    && run_expr(Expr::Binary { op: BinOp::Or, left: Box::new(Expr::Float(x)), right: Box::new(Expr::Float(y)) })
+    && run_expr(Expr::Binary { op: BinOp::Or, left: Box::new(Expr::Bool(p)), right: Box::new(Expr::Bool(q)) })
+    && run_expr(Expr::Binary { op: BinOp::Or, left: Box::new(Expr::Int(a)), right: Box::new(Expr::Float(y)) }) });
+vpv_cell!(#[kani::stub(eval_filter_expr, stub_eval_filter_expr)] #[kani::stub(collect_emitted_event, stub_collect_emitted_event)] #[kani::stub(call_user_function, stub_call_user_function)] c11_bin_xor_scalars, "C11/eval_expr_with_functions/Binary/Xor/Int-Int, Float-Float, Bool-Bool, Int-Float/no-panic", (a: i64, b: i64, x: f64, y: f64, p: bool, q: bool), {
+    run_expr(Expr::Binary { op: BinOp::Xor, left: Box::new(Expr::Int(a)), right: Box::new(Expr::Int(b)) })
+    && run_expr(Expr::Binary { op: BinOp::Xor, left: Box::new(Expr::Float(x)), right: Box::new(Expr::Float(y)) })
+    && run_expr(Expr::Binary { op: BinOp::Xor, left: Box::new(Expr::Bool(p)), right: Box::new(Expr::Bool(q)) })
+    && run_expr(Expr::Binary { op: BinOp::Xor, left: Box::new(Expr::Int(a)), right: Box::new(Expr::Float(y)) }) });
+vpv_cell!(#[kani::stub(eval_filter_expr, stub_eval_filter_expr)] #[kani::stub(collect_emitted_event, stub_collect_emitted_event)] #[kani::stub(call_user_function, stub_call_user_function)] c11_bin_followedby_scalars, "C11/eval_expr_with_functions/Binary/FollowedBy/Int-Int, Float-Float, Bool-Bool, Int-Float/no-panic", (a: i64, b: i64, x: f64, y: f64, p: bool, q: bool), {
+    run_expr(Expr::Binary { op: BinOp::FollowedBy, left: Box::new(Expr::Int(a)), right: Box::new(Expr::Int(b)) })
+    && run_expr(Expr::Binary { op: BinOp::FollowedBy, left: Box::new(Expr::Float(x)), right: Box::new(Expr::Float(y)) })
+    && run_expr(Expr::Binary { op: BinOp::FollowedBy, left: Box::new(Expr::Bool(p)), right: Box::new(Expr::Bool(q)) })
+    && run_expr(Expr::Binary { op: BinOp::FollowedBy, left: Box::new(Expr::Int(a)), right: Box::new(Expr::Float(y)) }) });
+vpv_cell!(#[kani::stub(eval_filter_expr, stub_eval_filter_expr)] #[kani::stub(collect_emitted_event, stub_collect_emitted_event)] #[kani::stub(call_user_function, stub_call_user_function)] c11_bin_bitand_scalars, "C11/eval_expr_with_functions/Binary/BitAnd/Int-Int, Float-Float, Bool-Bool, Int-Float/no-panic", (a: i64, b: i64, x: f64, y: f64, p: bool, q: bool), {
+    run_expr(Expr::Binary { op: BinOp::BitAnd, left: Box::new(Expr::Int(a)), right: Box::new(Expr::Int(b)) })
+    && run_expr(Expr::Binary { op: BinOp::BitAnd, left: Box::new(Expr::Float(x)), right: Box::new(Expr::Float(y)) })
+    && run_expr(Expr::Binary { op: BinOp::BitAnd, left: Box::new(Expr::Bool(p)), right: Box::new(Expr::Bool(q)) })
+    && run_expr(Expr::Binary { op: BinOp::BitAnd, left: Box::new(Expr::Int(a)), right: Box::new(Expr::Float(y)) }) });
+vpv_cell!(#[kani::stub(eval_filter_expr, stub_eval_filter_expr)] #[kani::stub(collect_emitted_event, stub_collect_emitted_event)] #[kani::stub(call_user_function, stub_call_user_function)] c11_bin_bitor_scalars, "C11/eval_expr_with_functions/Binary/BitOr/Int-Int, Float-Float, Bool-Bool, Int-Float/no-panic", (a: i64, b: i64, x: f64, y: f64, p: bool, q: bool), {
+    run_expr(Expr::Binary { op: BinOp::BitOr, left: Box::new(Expr::Int(a)), right: Box::new(Expr::Int(b)) })
+    && run_expr(Expr::Binary { op: BinOp::BitOr, left: Box::new(Expr::Float(x)), right: Box::new(Expr::Float(y)) })
+    && run_expr(Expr::Binary { op: BinOp::BitOr, left: Box::new(Expr::Bool(p)), right: Box::new(Expr::Bool(q)) })
+    && run_expr(Expr::Binary { op: BinOp::BitOr, left: Box::new(Expr::Int(a)), right: Box::new(Expr::Float(y)) }) });
+vpv_cell!(#[kani::stub(eval_filter_expr, stub_eval_filter_expr)] #[kani::stub(collect_emitted_event, stub_collect_emitted_event)] #[kani::stub(call_user_function, stub_call_user_function)] c11_bin_bitxor_scalars, "C11/eval_expr_with_functions/Binary/BitXor/Int-Int, Float-Float, Bool-Bool, Int-Float/no-panic", (a: i64, b: i64, x: f64, y: f64, p: bool, q: bool), {
+    run_expr(Expr::Binary { op: BinOp::BitXor, left: Box::new(Expr::Int(a)), right: Box::new(Expr::Int(b)) })
+    && run_expr(Expr::Binary { op: BinOp::BitXor, left: Box::new(Expr::Float(x)), right: Box::new(Expr::Float(y)) })
+    && run_expr(Expr::Binary { op: BinOp::BitXor, left: Box::new(Expr::Bool(p)), right: Box::new(Expr::Bool(q)) })
+    && run_expr(Expr::Binary { op: BinOp::BitXor, left: Box::new(Expr::Int(a)), right: Box::new(Expr::Float(y)) }) });
+vpv_cell!(#[kani::stub(eval_filter_expr, stub_eval_filter_expr)] #[kani::stub(collect_emitted_event, stub_collect_emitted_event)] #[kani::stub(call_user_function, stub_call_user_function)] c11_bin_shl_scalars, "C11/eval_expr_with_functions/Binary/Shl/Int-Int, Float-Float, Bool-Bool, Int-Float/no-panic", (a: i64, b: i64, x: f64, y: f64, p: bool, q: bool), {
+    run_expr(Expr::Binary { op: BinOp::Shl, left: Box::new(Expr::Int(a)), right: Box::new(Expr::Int(b)) })
+    && run_expr(Expr::Binary { op: BinOp::Shl, left: Box::new(Expr::Float(x)), right: Box::new(Expr::Float(y)) })
+    && run_expr(Expr::Binary { op: BinOp::Shl, left: Box::new(Expr::Bool(p)), right: Box::new(Expr::Bool(q)) })
+    && run_expr(Expr::Binary { op: BinOp::Shl, left: Box::new(Expr::Int(a)), right: Box::new(Expr::Float(y)) }) });
+vpv_cell!(#[kani::stub(eval_filter_expr, stub_eval_filter_expr)] #[kani::stub(collect_emitted_event, stub_collect_emitted_event)] #[kani::stub(call_user_function, stub_call_user_function)] c11_bin_shr_scalars, "C11/eval_expr_with_functions/Binary/Shr/Int-Int, Float-Float, Bool-Bool, Int-Float/no-panic", (a: i64, b: i64, x: f64, y: f64, p: bool, q: bool), {
+    run_expr(Expr::Binary { op: BinOp::Shr, left: Box::new(Expr::Int(a)), right: Box::new(Expr::Int(b)) })
+    && run_expr(Expr::Binary { op: BinOp::Shr, left: Box::new(Expr::Float(x)), right: Box::new(Expr::Float(y)) })
+    && run_expr(Expr::Binary { op: BinOp::Shr, left: Box::new(Expr::Bool(p)), right: Box::new(Expr::Bool(q)) })
+    && run_expr(Expr::Binary { op: BinOp::Shr, left: Box::new(Expr::Int(a)), right: Box::new(Expr::Float(y)) }) });
+vpv_replay_table!(c11_bin_eq_scalars, c11_bin_noteq_scalars, c11_bin_lt_scalars, c11_bin_le_scalars, c11_bin_gt_scalars, c11_bin_ge_scalars, c11_bin_in_scalars, c11_bin_notin_scalars, c11_bin_is_scalars, c11_bin_and_scalars, c11_bin_or_scalars, c11_bin_xor_scalars, c11_bin_followedby_scalars, c11_bin_bitand_scalars, c11_bin_bitor_scalars, c11_bin_bitxor_scalars, c11_bin_shl_scalars, c11_bin_shr_scalars, c11_bin_add_ii, c11_bin_add_if, c11_bin_add_fi, c11_bin_add_ff, c11_bin_sub_ii, c11_bin_sub_if, c11_bin_sub_fi, c11_bin_sub_ff, c11_bin_mul_ii, c11_bin_mul_if, c11_bin_mul_fi, c11_bin_mul_ff, c11_bin_div_ii, c11_bin_div_if, c11_bin_div_fi, c11_bin_div_ff, c11_bin_mod_ii, c11_bin_mod_if, c11_bin_mod_fi, c11_bin_mod_ff, c11_bin_pow_ii, c11_bin_pow_if, c11_bin_pow_fi, c11_bin_pow_ff, c11_bin_add_ss, c11_un_neg_i, c11_un_neg_f, c11_un_not_b, c11_un_bitnot_i, c11_un_not_i, c11_index_array, c11_index_str, c11_slice_array, c11_slice_array_open, c11_slice_str, c11_if_coalesce, c11_fn_abs, c11_fn_sqrt, c11_fn_floor, c11_fn_ceil, c11_fn_round, c11_fn_log, c11_fn_log10, c11_fn_exp, c11_fn_sin, c11_fn_cos, c11_fn_to_int, c11_fn_to_float, c11_fn_is_null, c11_fn_is_int, c11_fn_type_of, c11_fn_pow, c11_fn_min, c11_fn_max, c11_fn_get_array, c11_fn_set_array, c11_fn_substring, c11_fn_substring_utf8);
